@@ -22,7 +22,17 @@ CONFIGS = [("PVL", {}), ("ODL", {}), ("PDS3", {}), ("ISIS", {}),
            ("PDS3", {"convert_group_to_object": False}),
            ("PVL", {"aggregation_end": False, "end_delimiter": False}),
            ("dumps", {}),                  # the convenience function pvl.dumps(m) itself
-           ("dumps", {"indent": 4})]
+           ("dumps", {"indent": 4}),
+           # the caller keeps one decoder object and hands it to several encoders
+           ("ISIS", {"_decoder": "shared"}), ("PVL", {"_decoder": "shared"})]
+
+SHARED_DECODER = {}
+
+
+def shared_decoder():
+    if "d" not in SHARED_DECODER:
+        SHARED_DECODER["d"] = impl.OmniDecoder()
+    return SHARED_DECODER["d"]
 
 
 class DumpsRoute:
@@ -38,6 +48,8 @@ class DumpsRoute:
 def make(encname, cfg):
     if encname == "dumps":
         return DumpsRoute(cfg)
+    if cfg.get("_decoder") == "shared":
+        return impl.make_encoder(encname, decoder=shared_decoder())
     return impl.make_encoder(encname, **cfg)
 
 
@@ -75,11 +87,30 @@ def specials():
         [["a", "has a very long string " * 6], ["g", G([["b", "x"]])], ["g", G([["b", "y"]])]],
         [["bad key", 1], ["g", G([["a", 1]])], ["g", G([["b", 1]])]],       # ODL/PDS3 refuse
         [["g", G([["a", 1]])], ["g", G([["b", {"$": "tuple", "v": [1]}]])]],  # refusal half-way
+        # strings that one dialect writes bare and another must quote
+        [["s", "A+B"], ["t", "12:00-01"], ["u", ["LT+S", "x", "16#-7F#"]], ["g", G([["v", "C+D"], ["w", "a#b"]])]],
     ]
+
+
+class OneShot:
+    """a one-shot iterable (like a generator or a map object) that shows how much of it was used up"""
+    def __init__(self, items):
+        self.items, self.taken = list(items), 0
+
+    def __iter__(self):
+        return self
+
+    def __next__(self):
+        if self.taken >= len(self.items):
+            raise StopIteration
+        self.taken += 1
+        return self.items[self.taken - 1]
 
 
 def snapshot(m):
     """(class, id, items) recursively; values by canonical form."""
+    if isinstance(m, OneShot):
+        return ("V", ("one-shot", id(m), m.taken))
     if isinstance(m, impl.OrderedMultiDict):
         inv = C.invariant(m)
         return ("C", type(m).__name__, id(m), inv,
@@ -126,6 +157,10 @@ def compare(a, b, allow_conv, path="module"):
 
 
 def build(items, as_dict):
+    if items == "ITER":
+        # hand-built values that can be walked only once: an encoder that accepts them must not use them up
+        return impl.PVLModule([("s", OneShot([1, 4, 9])), ("g", impl.PVLGroup([("t", OneShot(["a", "b"]))])),
+                               ("k", 1)])
     if items == "LENGTH":
         # a float subclass that would be written as a quantity only if another
         # encoder's add_quantity_cls() registration leaked
@@ -165,6 +200,26 @@ def check_case(case):
     # (add_quantity_cls) and used
     if case.get("interfere"):
         c16.interfere()
+        for other_name in impl.ENCODERS:
+            # the other dialects' encoders write the same values (an equal module made of new objects)
+            try:
+                impl.make_encoder(other_name).encode(build(items, as_dict))
+            except Exception:  # noqa: BLE001
+                pass
+            if cfg.get("_decoder") == "shared":
+                import pvl
+                try:
+                    impl.make_encoder(other_name, decoder=shared_decoder())
+                    pvl.dumps(impl.PVLModule([("a", 1)]), decoder=shared_decoder())
+                except Exception:  # noqa: BLE001
+                    pass
+            rk = call(enc, m)
+            if rk != r1:
+                out.append({"case": case, "diagnosis": "dump-not-repeatable-after-other-use:" + encname,
+                            "detail": "after the %s encoder wrote an equal module%s: first %r now %r"
+                                      % (other_name, " and was built around the same decoder object"
+                                         if cfg.get("_decoder") == "shared" else "", str(r1)[:160], str(rk)[:160])})
+                return out
         for kw in other_dumps():
             # after each single other call: which call came last decides what a shared slot holds
             rk = call(enc, m)
@@ -243,6 +298,7 @@ def run(ctx):
     for s in specials():
         mods.append((s, False))
     mods.append(("LENGTH", False))
+    mods.append(("ITER", False))
     for f in gen.forests(2, ["a"], ["g"], [1]):
         mods.append((f, True))           # plain dict input (unique keys only)
     mods = [m for m in mods if not (m[1] and len({k for k, _ in m[0]}) != len(m[0]))]
@@ -253,7 +309,7 @@ def run(ctx):
     # hermetic cases: one fresh process each, with unrelated activity on other
     # instances (construction, add_quantity_cls, dumps, loads) between the two dumps
     import multiprocessing
-    herm = [("hermetic", (s, False)) for s in specials()] + [("hermetic", ("LENGTH", False))]
+    herm = [("hermetic", (s, False)) for s in specials()] + [("hermetic", ("LENGTH", False)), ("hermetic", ("ITER", False))]
     with multiprocessing.get_context("fork").Pool(16, maxtasksperchild=1) as pool:
         for r in pool.imap_unordered(shard, herm):
             acc.merge(r)
